@@ -171,7 +171,7 @@ func crossCheck(repo string, s *build.Session, pkg *build.PackageData, variant s
 		if a != b {
 			n := baseName(fset, replica[i])
 			res.ReplicaDiff = append(res.ReplicaDiff, n)
-			res.Bundle["real/"+n], res.Bundle["replica/"+n] = a, b
+			res.Bundle["testdata/real/"+n], res.Bundle["testdata/replica/"+n] = a, b
 		}
 	}
 
@@ -213,7 +213,7 @@ func crossCheck(repo string, s *build.Session, pkg *build.PackageData, variant s
 				kind = "order"
 			}
 			res.EvalDiff = append(res.EvalDiff, fmt.Sprintf("%s (%s): predicted but absent: %v; present but not predicted: %v", n, kind, clip(missing), clip(extra)))
-			res.Bundle["merged/"+n] = printFile(srcs.FileSet, real[i])
+			res.Bundle["testdata/merged/"+n] = printFile(srcs.FileSet, real[i])
 		}
 	}
 	if len(res.ReplicaDiff) == 0 && len(res.EvalDiff) == 0 {
